@@ -137,6 +137,68 @@ def _perm_job(job):
     return fails
 
 
+def _xml_attr_perms(spec, limit=6):
+    """XML element specs (tag, attrib, text, children) with the attributes written in every order (bounded)."""
+    tag, attrib, text, kids = spec
+    items = list(attrib.items())
+    subs = [_xml_attr_perms(k, 2) for k in kids]
+    out = []
+    for perm in itertools.islice(itertools.permutations(range(len(items))), limit):
+        for combo in itertools.islice(itertools.product(*subs), 2):
+            out.append((tag, {items[i][0]: items[i][1] for i in perm}, text, tuple(combo)))
+    return out[:limit]
+
+
+XML_PAIRS = [
+    (('item', {'d': 'aba', 'aeb': ''}, None, ()), ('item', {'dx': 'aba', 'rpr': 'Xaba'}, None, ())),
+    (('r', {'a': '1', 'b': '2', 'c': '3'}, 't', ()), ('r', {'x': '1', 'y': '2', 'c': '4'}, 't', ())),
+    (('r', {'k1': 'vvvv', 'k2': 'wwww'}, None, (('s', {'p': 'q', 'm': 'n'}, 'u', ()),)),
+     ('r', {'j1': 'wwww', 'j2': 'vvvv'}, None, (('s', {'pp': 'q', 'mm': 'n', 'z': ''}, 'u', ()),))),
+    (('e', {'id': '7', 'name': 'alpha', 'kind': 'x'}, None, ()), ('e', {'ident': '7', 'nom': 'alpha', 'kind': 'y', 'extra': '1'}, None, ())),
+]
+
+
+def _xml_perm_job(job):
+    """Attribute order of an XML element is not significant: cost and pairing invariant under re-ordering the attributes."""
+    idx, opt = job
+    a, b = XML_PAIRS[idx]
+    fails = []
+    try:
+        e0 = gt.build_xml(a, opt).edits(gt.build_xml(b, opt))
+        walk.refine(e0)
+        c0, s0 = e0.bounds().upper_bound, _summary(e0)
+        done = False
+        for a2 in _xml_attr_perms(a):
+            for b2 in _xml_attr_perms(b):
+                e = gt.build_xml(a2, opt).edits(gt.build_xml(b2, opt))
+                walk.refine(e)
+                if e.bounds().upper_bound != c0:
+                    fails.append({'what': f"XML: cost {c0} for {a!r} -> {b!r} but {e.bounds().upper_bound} with the attributes written as "
+                                          f"{a2!r} -> {b2!r}", 'class': 'c08-cost-depends-on-attribute-order'})
+                    done = True
+                elif _summary(e) != s0:
+                    fails.append({'what': f"XML: paired/removed/inserted items change with the attribute order: {a!r} -> {b!r} vs {a2!r} -> {b2!r}",
+                                  'class': 'c08-pairing-depends-on-attribute-order'})
+                    done = True
+                if done:
+                    break
+            if done:
+                break
+        for a2 in _xml_attr_perms(a)[1:]:
+            e = gt.build_xml(a, opt).edits(gt.build_xml(a2, opt))
+            walk.refine(e)
+            if e.bounds().upper_bound != 0:
+                fails.append({'what': f"XML: an element and its attribute-permuted copy differ: {a!r} vs {a2!r}", 'class': 'c08-permuted-copy-not-equal'})
+                break
+    except Exception as ex:
+        fails.append({'what': f"{type(ex).__name__}: {ex} [XML pair {idx}]", 'class': f'c08-exception:{type(ex).__name__}'})
+    for f in fails:
+        f['what'] += f" opt={opt}"
+        f['input'] = {'xml_pair': idx, 'opt': opt}
+        f['replay'] = {'kind': 'xmlperm', 'idx': idx, 'opt': opt}
+    return fails
+
+
 def _zero_size(x):
     return x is None or x == ''
 
@@ -167,6 +229,9 @@ def _swap_job(job):
 
 def replay(entry, repo_root):
     r = entry.get('replay') or {}
+    if r.get('kind') == 'xmlperm':
+        f = _xml_perm_job((r['idx'], r['opt']))
+        return f[0]['what'] if f else None
     if r.get('kind') == 'perm':
         f = _perm_job((r['a'], r['b'], r['opt']))
         return f[0]['what'] if f else None
@@ -199,6 +264,8 @@ def bounded(tier, seed, repo_root):
     for _ in range(700 if tier == 'quick' else 7000):
         pj.append((rnd.choice(maps), rnd.choice(maps), gt.OPTION_COMBOS[rnd.randrange(9)]))
     fails = [f for fs in pmap(_perm_job, pj, repo_root, job_timeout=60, on_timeout=timeout_failure('C08')) for f in fs]
+    xj = [(i, o) for i in range(len(XML_PAIRS)) for o in gt.OPTION_COMBOS]
+    fails += [f for fs in pmap(_xml_perm_job, xj, repo_root, chunksize=1, job_timeout=60, on_timeout=timeout_failure('C08')) for f in fs]
     elems = [0, 1, "a", "b", "", None, True, [1], [2], {"a": 1}]
     sj = []
     for n in (2, 3, 4):
@@ -209,8 +276,8 @@ def bounded(tier, seed, repo_root):
     fails += [f for fs in pmap(_swap_job, sj, repo_root, job_timeout=60, on_timeout=timeout_failure('C08')) for f in fs]
     return [{
         'name': 'C08.permutations-and-swaps', 'bound': f"{len(pj)} pairs of mappings with 1-4 keys (nested mappings included), every key "
-        f"permutation (<= 6 per document) x random option combination; {len(sj)} swaps of unequal elements in lists of length 2-4",
-        'evaluations': len(pj) + len(sj), 'distinct_nontrivial': len({(repr(j[0]), repr(j[1])) for j in pj}) + len({repr(j[:3]) for j in sj}),
+        f"permutation (<= 6 per document) x random option combination; {len(xj)} XML element pairs x attribute orders x options; {len(sj)} swaps of unequal elements in lists of length 2-4",
+        'evaluations': len(pj) + len(sj) + len(xj), 'distinct_nontrivial': len({(repr(j[0]), repr(j[1])) for j in pj}) + len({repr(j[:3]) for j in sj}),
         'exhaustive': False,
         'rule': 'mapping pair -> cost and multiset of leaf edits invariant under key reordering; permuted copy costs 0; list swap of '
                 'unequal elements costs > 0',
